@@ -90,13 +90,104 @@ end
 /-- the entries of a tree, keyed by their non-empty path: the content of the nested dict -/
 def bound (p : Path) (e : Entry) (kids : Kids) : Prop := p ≠ [] ∧ lookup p (.node kids) = some e
 
+/-! ### update -/
+
+/-- `d[p] = v` as a step of a bulk operation -/
+def writeAt (p : Path) (v : Entry) (t : Entry) : Entry × Except Err Unit :=
+  match insert p v t with
+  | some t' => (t', .ok ())
+  | none => (t, .error .key)
+
+/-- `merge(d, p, {k: v, …})`: each value is merged below `p`: a dict value that meets a dict is merged key by key,
+anything else is written (replacing what was there); the first value that cannot be written stops the merge
+(what has been written stays written) -/
+def mergeKids (p : Path) : Kids → Entry → Entry × Except Err Unit
+  | [], t => (t, .ok ())
+  | (k, .leaf nt x) :: r, t =>
+    match writeAt (p ++ [k]) (.leaf nt x) t with
+    | (t', .error e) => (t', .error e)
+    | (t', .ok ()) => mergeKids p r t'
+  | (k, .node pv) :: r, t =>
+    match (match lookup (p ++ [k]) t with
+      | some (.node _) => mergeKids (p ++ [k]) pv t
+      | _ => writeAt (p ++ [k]) (.node pv) t) with
+    | (t', .error e) => (t', .error e)
+    | (t', .ok ()) => mergeKids p r t'
+
+/-- one item `(p, v)` of an `update` payload -/
+def mergeTop (p : Path) (v : Entry) (t : Entry) : Entry × Except Err Unit :=
+  match v with
+  | .leaf nt x => writeAt p (.leaf nt x) t
+  | .node pv =>
+    match lookup p t with
+    | some (.node _) => mergeKids p pv t
+    | _ => writeAt p (.node pv) t
+
+/-- `update(payload)` on a plain nested dict: the items one after the other (an item that cannot be written stops
+the update; earlier items stay) -/
+def specUpdate : List (Path × Entry) → Entry → Entry × Except Err Unit
+  | [], t => (t, .ok ())
+  | (p, v) :: r, t =>
+    match (if p = [] then (t, .error .index) else mergeTop p v t) with
+    | (t', .error e) => (t', .error e)
+    | (t', .ok ()) => specUpdate r t'
+
+def okU : Except Err Unit → Bool
+  | .ok _ => true
+  | .error _ => false
+
+/-! ### exclude -/
+
+/-- the tails of the keys that start with `k` and go deeper -/
+def tailsOf (k : String) (keys : List Path) : List Path :=
+  keys.filterMap fun p => match p with
+    | k' :: r => if k' = k ∧ r ≠ [] then some r else none
+    | [] => none
+
+/-- `exclude(*keys)` described on the tree, independent of the order of the keys: an entry whose one-component
+path is listed disappears; a nested dict is pruned by the tails of the keys that start with its name -/
+def sx (keys : List Path) : Kids → Kids
+  | [] => []
+  | (k, e) :: r =>
+    if keys.contains [k] then sx keys r
+    else (k, match e with
+      | .node sub => .node (sx (tailsOf k keys) sub)
+      | .leaf nt v => .leaf nt v) :: sx keys r
+
+/-! ### flatten_keys -/
+
+/-- the flat names `flatten_keys(sep)` would produce, in order -/
+def flatNames (sep : String) (t : Entry) : List String := (leavesOf t).map (fun kv => joinWith sep kv.1)
+
+/-- the flat dict `flatten_keys(sep)` builds -/
+def flatKids (sep : String) (t : Entry) : Kids := (leavesOf t).map (fun kv => (joinWith sep kv.1, kv.2))
+
+/-! ### unflatten_keys -/
+
+/-- `unflatten_keys(sep)` on a plain dict: every root key containing the separator is moved to its split path
+(`v = d.pop(k); d[k.split(sep)] = v`), refusing to overwrite; earlier moves persist when a later one is refused -/
+def specUnflattenLoop (sep : Char) : List String → Entry → Entry × Out
+  | [], t => (t, .ok)
+  | k :: ks, t =>
+    if k.toList.contains sep then
+      match specRename [k] (splitKey sep k) true t with
+      | (t', .err e) => (t', .err e)
+      | (t', _) => specUnflattenLoop sep ks t'
+    else specUnflattenLoop sep ks t
+
+def specUnflatten (sep : Char) (inplace : Bool) (t : Entry) : Entry × Out :=
+  match specUnflattenLoop sep (rootKeys t) t with
+  | (t', .err e) => if inplace then (t', .err e) else (t, .err e)
+  | (t', _) => if inplace then (t', .ok) else (t, .res [t'])
+
 /-! ### the reference step -/
 
 /-- the operations whose transcription is proved to refine the nested-dict replay (see Props/C04.lean);
-the remaining ones (update, select, exclude, flatten_keys, unflatten_keys, split_keys) are tied to the
+the remaining ones (select, flatten_keys in place, split_keys) are tied to the
 code by the correspondence check and judged by the Python dict oracle only. -/
 def Op.core : Op → Bool
-  | .set .. | .del .. | .pop .. | .rename .. | .setdefault .. | .clear | .empty => true
+  | .set .. | .del .. | .pop .. | .rename .. | .setdefault .. | .clear | .empty | .unflatten .. | .exclude .. | .update .. => true
+  | .flatten _ inplace => !inplace
   | _ => false
 
 /-- replay of one operation on the plain nested dict (core operations) -/
@@ -108,6 +199,15 @@ def dstep (t : Entry) : Op → Entry × Out
   | .setdefault p _ v => specSetDefault p v t
   | .clear => specClear t
   | .empty => (t, .res [.node []])
+  | .unflatten sep inplace => specUnflatten sep inplace t
+  | .update items =>
+    match specUpdate items t with
+    | (t', .error e) => (t', .err e)
+    | (t', .ok ()) => (t', .ok)
+  | .exclude keys inplace =>
+    if inplace then (specExclude keys t, .ok) else (t, .res [specExclude keys t])
+  | .flatten sep false =>
+    if (flatNames sep t).Nodup then (t, .res [.node (flatKids sep t)]) else (t, .err .key)
   | _ => (t, .err .runtime)
 
 def drun (t : Entry) : List Op → Entry
@@ -123,6 +223,10 @@ def InScope (t : Entry) : Op → Prop
   | .setdefault p isTuple v => WF v ∧ (isTuple = false → p.length = 1)   -- a `str` key has one component
   | .clear => True
   | .empty => True
+  | .unflatten .. => True
+  | .update items => ∀ kv ∈ items, WF kv.2
+  | .exclude keys _ => ∀ p ∈ keys, p ≠ []
+  | .flatten _ inplace => inplace = false
   | _ => False
 
 def ScopeAll (t : Entry) : List Op → Prop
